@@ -1,6 +1,7 @@
 """C08 - multi-datagram responses do not depend on arrival order."""
 import itertools
 from valve_common import *
+from u2_common import u2_specs, u2_case
 
 ID = "C08"
 PROPS_FILE = "C08"
@@ -52,6 +53,21 @@ def gen_cases(tier, rng):
                     g2[gi] = (ch, b2)
                     cases.append({"id": "dup/%d/%d/%d/%d" % (s["seed"], gi, j, pos), "hex": assemble(s["settings"], flatten(g2), s["bz"]),
                                   "meta": {"stream": "valve-duplicate", "expected": s["expected"], "k": k}})
+    # Unreal 2 multi-packet lists: permutations of the mutators/rules datagrams and of the player datagrams
+    done = 0
+    for u in u2_specs([rng.next() >> 1 for _ in range(40 if tier == "quick" else 400)], (2, 2)):
+        evs = u["events"]
+        ti = evs.index(None)
+        mr, pl = evs[1:ti], evs[ti + 1:]
+        for which, group in (("mr", mr), ("pl", pl)):
+            k = len(group)
+            if k < 2 or k > maxfrag:
+                continue
+            for pi, perm in enumerate(itertools.permutations(range(k))):
+                g2 = [group[j] for j in perm]
+                script = [evs[0]] + (g2 if which == "mr" else mr) + [None] + (g2 if which == "pl" else pl)
+                cases.append({"id": "u2perm/%d/%s/%d" % (u["seed"], which, pi), "hex": u2_case(7778, (2, 2), None, script),
+                              "meta": {"stream": "unreal2-permutation", "expected": "Ok(" + u["expected"] + ")", "identity": list(perm) == sorted(perm), "k": k, "proto": "unreal2"}})
     return cases
 
 
@@ -62,6 +78,8 @@ def oracle(case, impl, side):
         return ("panic", "panicked: " + side[:200])
     if case["meta"]["stream"].endswith("permutation"):
         if res != exp:
+            if case["meta"].get("proto") == "unreal2":
+                return ("order-dependent:unreal2", "Unreal 2: a reordering of the same datagrams changed the response (lists carry no sequence numbers)")
             return ("order-dependent", "a reordering of the same datagrams changed the response: got %s expected %s" % (res[:200], exp[:200]))
     else:
         if res.startswith("Ok(") and res != exp:
